@@ -248,8 +248,11 @@ CLAIMED = {
             "(BBJLP 2008) and extended (HWCD 2008) coordinates return a representation of the affine sum and the extended ones re-establish "
             "T*Z = X*Y; ed_neg, ed_norm denote -P, P; ed_cmp's cross-multiplication decides equality of the affine points; the affine law is closed "
             "on the curve, commutative, with neutral element (0,1) and inverse (-x,y); (3) ed_mul_basic/monty/lwnaf/slide/lwreg, "
-            "ed_mul_fix_basic/lwnaf/combs, ed_mul_sim_basic/trick/inter/joint and the generator-table branch of ed_mul_sim_gen never reject and "
-            "return k•P (k•P + m•Q) for every integer scalar in any additive commutative group killed by r; (4) ed_read_bin accepts only curve points in canonical form "
+            "ed_mul_fix_basic/lwnaf/combs/combd (with the table constructions ed_mul_pre_*), ed_mul_sim_basic/trick/inter/joint and the "
+            "generator-table branch of ed_mul_sim_gen never reject and "
+            "return k•P (k•P + m•Q) for every integer scalar in any additive commutative group killed by r; ed_mul_sim_lot never rejects and "
+            "returns the sum of k_i•P_i for every list of (point, scalar) pairs, scalars of any sign and length, in any additive commutative "
+            "group (mul_fix_combd, mul_sim_lot: corollaries of the C03 abstract-group theorems about the shared models of Model/EpMul.lean); (4) ed_read_bin accepts only curve points in canonical form "
             "of the three advertised shapes, decode∘encode = id on curve points (compressed and not), encode∘decode = id except on the two "
             "redundant forms of the format, ed_upk∘ed_pck = id. The multiplication theorems are at full strength — total, k•P for EVERY integer k on "
             "points killed by r, r < 2^RLC_FP_BITS — since the routines reduce the scalar modulo r (the /repo fixes of the eight defects this check "
@@ -262,8 +265,9 @@ CLAIMED = {
             "Trusted: Lean kernel; translator tools/translate_ed.py (accepted fragment listed there); hand-written models of ed_is_infty, ed_cmp, "
             "the multiplication loops and the encodings tied by correspondence; curve constants read from the running library (generator on "
             "curve, a square / d non-square by Euler, r*G = O, 8-torsion orders evaluated by the driver; primality of p and r not established "
-            "here); fp_srt / fp_inv enter the encoding theorems through their contracts (C02 class C); comb-d, sim_lot, mul_dig, ed_blind, "
-            "ed_on_curve are compared only. No known finding is listed (C17-F1..F8 repaired in /repo).",
+            "here); fp_srt / fp_inv enter the encoding theorems through their contracts (C02 class C); ed_blind, "
+            "ed_on_curve, ed_size_bin, ed_curve_get_gen are compared only; ed_mul_dig (mul_dig) and the dispatch of ed_mul_gen / ed_mul_sim_gen (mul_gen_dispatch) have "
+            "theorems; the precomputation tables are compared entry by entry (op edtab). No known finding is listed (C17-F1..F8 repaired in /repo).",
             "findings/C17-design.md; findings/C17-1.md"),
     "C10": ("Translator (45 straight-line tower functions of src/fpx regenerated into Lean on every run and proved equal to the model "
             "definitions) + Lean 4 proofs (generic polynomial-quotient layer = R[X]/(X^k - c) via evaluation at any root, incl. Mathlib's AdjoinRoot; every "
